@@ -4,7 +4,8 @@ from props.c01 import FINISH
 
 THEOREMS = ["Slock.C06.reachable_HInv", "Slock.C06.C06_deadline_grant", "Slock.C06.expiryDeadline_eq", "Slock.C06.C06_update_restarts",
             "Slock.C06.C06_update_keep_token", "Slock.C06.C06_not_early", "Slock.C06.C06_unlimited", "Slock.C06.C06_effects",
-            "Slock.Engine.wheelAdd_spec", "Slock.Engine.consts_match"]
+            "Slock.Engine.wheelAdd_spec", "Slock.Engine.consts_match",
+            "Slock.C06.reachable_HN", "Slock.C06.C06_scheduled_ahead", "Slock.C06.C06_hid_unique", "Slock.C06.C06_not_late", "Slock.C06.reachable_NS", "Slock.C06.C06_not_late_unshortened", "Slock.Engine.sweepExpire_good"]
 
 
 def run(ctx):
